@@ -10,7 +10,7 @@ import ast
 
 from ..astutil import calls, const, kw, parent_map, short
 from ..backends import backend_paths, reachable
-from ..dasksites import NAN_TEXTS, Site, eval_in_scope, kernel_footprint, radius_ok, sites_in
+from ..dasksites import NAN_TEXTS, Site, eval_in_scope, kernel_footprint, radius_ok, sites_in, expanded_sites
 from ..kai import Arr
 from ..program import AnalysisIncomplete, BackendTable, Ext, Func, Partial, norm
 from ..sym import App, Rat, Sym, subst
@@ -178,6 +178,9 @@ def check_site(prog, rep, entry, site, np_funcs, kind):
             los = [subst(x, rn) for x in lo[axis]]
             his = [subst(x, rn) for x in hi[axis]]
             bad = radius_ok(depth_vals[axis], los, his)
+            if bad and ODD_KERNEL_OPS.get(entry.split('[')[0]):
+                # the public wrapper validates the kernel to have odd shape (custom_kernel; checked by C09-F6)
+                bad = radius_ok(depth_vals[axis], los, his, odd_arrays=set(ren.values()) | set(ren))
             rep.add('H1', f, entry, 'axis %d: depth %s vs footprint of %s [%s, %s]'
                     % (axis, norm(elts[axis]), kern.qualname, _fmt(los, min), _fmt(his, max)), site.call.lineno,
                     not bad, 'the halo on axis %d must cover every cell the kernel reads for one output cell (rows '
@@ -201,6 +204,7 @@ def check_site(prog, rep, entry, site, np_funcs, kind):
                 'output cell and must not reduce over a block (a per-block min/max/mean differs from the global one)')
 
 
+ODD_KERNEL_OPS = {'apply': True, 'focal_stats': True}
 FLOATPROV = [None]
 FP_CACHE = {}
 FP_RED = {}
@@ -461,7 +465,7 @@ def check_pipe(prog, rep, entry, f_np, f_da):
             'divisors, table sizes): the two paths are separate code and only agree if their constants do')
     # shared kernels: the functions mapped over blocks on the dask path must be used by the numpy path too
     for g in da_only:
-        for site in sites_in(prog, g):
+        for site in expanded_sites(prog, g):
             kern = site.kernel()
             if kern is None or is_gpu(kern):
                 continue
@@ -575,7 +579,7 @@ def check(prog, rep):
             if g.jit is not None:
                 continue
             # functions shared with the numpy path cannot contain the partitioning (except module-parametrised)
-            sites += sites_in(prog, g)
+            sites += expanded_sites(prog, g)
         sites = [s for s in sites if s.kernel() is None or not is_gpu(s.kernel())]
         sites = [s for s in sites if not is_gpu(s.scope)]
         prims = {s.kind for s in sites}
